@@ -142,11 +142,13 @@ class ConvLoop(S.LoopContract):
 
     def inv(self, I):
         I.temps("node")
-        I.covered.add("converted")
+        acc = I.a("converted")
+        I.covered.add(acc)
+        I.bound(acc)
         eng, st = I.eng, I.st
         j = I.j
         if I.mode == "check":
-            c = st.get(st.env["converted"])
+            c = st.get(st.env[acc])
             n = z3.IntVal(len(c.items)) if c.items is not None else c.seq.n
             eng.oblige(st, I.label + "/one element per node", n == j, kind="invariant")
             # the element appended in this iteration is the conversion of this iteration's node
@@ -155,7 +157,7 @@ class ConvLoop(S.LoopContract):
             for (what, goal) in conv_spec(eng, st, last, nd):
                 eng.oblige(st, I.label + "/appended node: " + what, goal, kind="invariant")
         else:
-            st.env["converted"] = st.alloc(PyList(seq=SeqV(j, lambda k: dyn(smt.fresh("converted_item", Val)))))
+            st.env[acc] = st.alloc(PyList(seq=SeqV(j, lambda k: dyn(smt.fresh("converted_item", Val)))))
 
 
 def conv_spec(eng, st, obj, nd):
@@ -313,10 +315,13 @@ def verify_converter(repo, table):
     eng.assign = assign
     # the only mutation of `converted` inside the loop is one append per iteration (order lemma)
     loops = [n for n in ast.walk(ci.node) if isinstance(n, ast.For)]
+    # the accumulator by role: the list the function returns
+    rets = [ast.unparse(n.value) for n in ast.walk(ci.node) if isinstance(n, ast.Return) and isinstance(n.value, ast.Name)]
+    accn = rets[-1] if rets else "converted"
     appends = [n for n in ast.walk(loops[0]) if isinstance(n, ast.Call) and isinstance(n.func, ast.Attribute) and n.func.attr == "append"
-               and ast.unparse(n.func.value) == "converted"] if loops else []
+               and ast.unparse(n.func.value) == accn] if loops else []
     others = [n for n in ast.walk(ci.node) if isinstance(n, (ast.Subscript, ast.Attribute)) and isinstance(getattr(n, "ctx", None), (ast.Store, ast.Del))
-              and ast.unparse(n.value).startswith("converted")]
+              and ast.unparse(n.value).startswith(accn)]
     recs.append({"name": ci.key + "/converted is built by exactly one append per node, in order", "status": "unsat" if (len(appends) == 1 and not others) else "unknown",
                  "backend": "syntactic", "time_s": 0, "function": ci.key, "clause": "convert"})
     try:
